@@ -383,7 +383,7 @@ def run(ctx):
         return d.get("FUN", 0) >= 2 or d.get("QTY", 0) >= 2 or any(p not in ("SYM", "FUN", "QTY") for p in d)
     full = set(modules) if not ctx.quick else set(rng.sample(modules, max(1, len(modules) // 10))) | (set(CORPUS) & set(modules))
     light_only = set() if not ctx.quick else {n for n, o in refm.items() if o.get("import") == "ok" and multi(o)} - full
-    # quick, additionally: modules whose source calls a solver / simplifier (the operations whose output follows the name order)
+    # quick, additionally: EVERY module whose source calls a solver / simplifier (the operations whose output follows the name order)
     # gets the one-exponent boundary sweep of ALL its prefixes incl. SYM, all offsets, with its calculate_* functions
     solver_only = set()
     if ctx.quick:
@@ -396,9 +396,8 @@ def run(ctx):
                 continue
             if "solve(" in src or "simplify(" in src:
                 solver_only.add(n)
-        # measured: sweeping all ~420 of them costs ~110 s, not affordable in the quick budget -> a seeded quarter per run
-        # (the thorough tier sweeps every module with both exponents)
-        solver_only = set(rng.sample(sorted(solver_only), len(solver_only) // 4))
+        # ALL of them (~420; costs ~110 s of the 4 min quick budget): deterministic, no sampling.  The thorough tier sweeps every
+        # module with both exponents and the leading-digit / gap states on top.
         light_only -= solver_only
     # core warm-up, then the module alone (minimal history for state kept by core helpers): quick -- the modules whose source
     # mentions the core geometry / field / vector / coordinate-system helpers plus the full sample; thorough -- every module
@@ -462,7 +461,7 @@ def run(ctx):
             keep |= set(rng.sample(rest, max(0, min(len(rest), lim - len(keep)))))
             offs = sorted(keep)
         sweep_only = name in solver_only
-        if sweep_only:
+        if sweep_only and name not in slow:
             offs = list(range(0, min(kmax, 16) + 1))
         for bump in (0, 1) if (name not in slow and not light and not sweep_only) else (0,):
             for st in boundary_counters(base_ids, delta, offs, bump):
